@@ -724,7 +724,7 @@ func runCase(n int, cfg Cfg, cs condSpec, pts []Point, tmin, tmax int64, split b
 					if sg.Shards[si].ID == p.SID {
 						holders++
 						p.GID = sg.ID
-						if !sg.Contains(ts) {
+						if ts.Before(sg.StartTime) || !ts.Before(sg.EndTime) { // half-open span, checked independently of ShardGroupInfo.Contains
 							c.Oracle = append(c.Oracle, fmt.Sprintf("route: point %d (t=%d) stored in shard %d of group %d whose span [%s,%s) does not contain t", i, p.Time, p.SID, sg.ID, nsString(sg.StartTime), nsString(sg.EndTime)))
 						}
 						if sg.Deleted() {
@@ -815,8 +815,7 @@ func runCase(n int, cfg Cfg, cs condSpec, pts []Point, tmin, tmax int64, split b
 				seenKey[t[0]] = true
 			}
 		}
-		fl := p.Leaf // generator stored field values in Leaf slots temporarily? no: fields are derived from time
-		_ = fl
+		// field values are a function of the timestamp
 		m["usage"] = float64((p.Time%5+5)%5) * 0.75
 		m["cnt"] = int64((p.Time%3 + 3) % 3 + 1)
 		m["msg"] = []string{"x", "y", "a"}[int((p.Time%3+3)%3)]
